@@ -264,6 +264,31 @@ macro_rules! cross_fam {
             chk!(bad, c, "Ref<>RefBuf", ob((*rx).partial_cmp(&by)));
             chk!(bad, c, "RefBuf<>RefBuf", ob(bx.partial_cmp(&by)));
             chk!(bad, c, "RefBuf.cmp", ob(Some(bx.cmp(&by))));
+            // the comparison operators (default methods of PartialOrd, but overridable) and the
+            // std helpers built on Ord
+            chk!(bad, c < 0, "Ref<", *rx < *ry);
+            chk!(bad, c <= 0, "Ref<=", *rx <= *ry);
+            chk!(bad, c > 0, "Ref>", *rx > *ry);
+            chk!(bad, c >= 0, "Ref>=", *rx >= *ry);
+            chk!(bad, c < 0, "RefBuf<", bx < by);
+            chk!(bad, c <= 0, "RefBuf<=", bx <= by);
+            chk!(bad, c > 0, "RefBuf>", bx > by);
+            chk!(bad, c >= 0, "RefBuf>=", bx >= by);
+            chk!(bad, !e, "RefBuf!=", bx != by);
+            chk!(bad, true, "Ord::max/min", {
+                let mx = std::cmp::max(rx, ry);
+                let mn = std::cmp::min(rx, ry);
+                (c >= 0 || mx.as_bytes() == ry.as_bytes()) && (c <= 0 || mn.as_bytes() == ry.as_bytes())
+            });
+            // Clone::clone_from / ToOwned::clone_into keep the text
+            {
+                let mut t = bx.clone();
+                t.clone_from(&by);
+                chk!(bad, true, "clone_from", t.as_bytes() == y);
+                let mut u = bx.clone();
+                ry.clone_into(&mut u);
+                chk!(bad, true, "clone_into", u.as_bytes() == y);
+            }
             // the full type on the right
             if let Ok(fy) = <$Ri>::new(iy) {
                 let fyb: $RiBuf = fy.to_owned();
